@@ -1,0 +1,15 @@
+//go:build !verif
+
+// Package verifhook provides instrumentation points for the external
+// verification harness (/verif). Built without the `verif` tag every function
+// here is an empty inlineable no-op.
+package verifhook
+
+// Enabled reports whether the package was built with the verif tag.
+const Enabled = false
+
+// Gate marks the entry of a critical section.
+func Gate(obj any, point string) {}
+
+// Emit records an event from inside a critical section.
+func Emit(obj any, ev string, s string, n ...int64) {}
